@@ -158,6 +158,16 @@ CLAIMED = {
         "DESIGN.md §4 C12",
         "exploration",
     ),
+    "C19": (
+        "Hypothesis-generated session scripts x engine-call schedules under a deterministic scheduler (DuckDB connection proxy) vs all serial orders; free-running threads with invariants",
+        "Every fakesnow<->DuckDB call goes through a proxy that parks the calling thread until a deterministic scheduler grants the "
+        "turn, so interleavings of the individual engine calls of 2-3 sessions are generated, shrunk and replayed; outcome vector + "
+        "final snapshot must equal one of all statement-level serial orders. A second facet runs real threads with invariants valid "
+        "for every timing. Exploration of bounded scripts/schedules.",
+        "Engine calls are atomic scheduler steps; sessions blocked on a Python lock are detected by a grace period; races inside DuckDB are only sampled by the free-running facet.",
+        "DESIGN.md §4 C19",
+        "exploration",
+    ),
 }
 
 NOT_YET = {}
